@@ -138,7 +138,24 @@ func (c *controller) runOp(w *worker) (res Res) {
 			res = Res{Kind: "panic", Msg: fmt.Sprint(r)}
 		}
 	}()
-	return applyOp(c.tree, w.op, w.handle, w.park)
+	res = applyOp(c.tree, w.op, w.handle, w.park)
+	if res.Kind == "delvals" {
+		out := make([][]string, 0, len(res.Paths))
+		for _, v := range res.Paths {
+			var hit [][]string
+			for _, x := range c.ws {
+				if (x.op.K == "add" || x.op.K == "hold") && fmt.Sprint(x.op.V) == v[0] {
+					hit = append(hit, cpPath(x.op.P))
+				}
+			}
+			if len(hit) != 1 {
+				panic(fmt.Sprintf("walkdel: value %s names %d paths", v[0], len(hit)))
+			}
+			out = append(out, hit[0])
+		}
+		res = Res{Kind: "paths", Paths: out}
+	}
+	return res
 }
 
 // applyOp performs one call on the real tree.  park (may be nil) is called
@@ -255,6 +272,16 @@ func applyOp(t *ctree.Tree, o SOp, handle *ctree.Leaf, park func()) Res {
 			out[i] = cpPath(p)
 		}
 		return Res{Kind: "paths", Paths: out}
+	case "walkdel":
+		// WalkDeleted reports removed values only; the scenarios that use it give
+		// every add / paused update its own value, so the values name the paths
+		var vals []int64
+		t.WalkDeleted(o.P, func(interface{}) bool { return true }, func(x interface{}) { vals = append(vals, x.(int64)) })
+		out := make([][]string, len(vals))
+		for i, v := range vals {
+			out[i] = []string{fmt.Sprint(v)}
+		}
+		return Res{Kind: "delvals", Paths: out}
 	case "delete":
 		ps := t.Delete(o.P)
 		out := make([][]string, len(ps))
